@@ -131,7 +131,11 @@ class E(opscalar.ScalarOp):
 
         # match duration and tau if `duration` is `True`
         self._duration = duration
-        duration = self.tau if duration is True else duration
+        if duration is True:
+            duration = self.tau
+            if axes is not None and np.ndim(duration) > 0:
+                # the duration follows the operator to its axes
+                duration = common.set_axes(0, np.asarray(duration), axes)
 
         # init operator
         opscalar.diff.DiffOperator.__init__(
@@ -207,7 +211,11 @@ class P(opscalar.ScalarOp):
 
         # match duration and tau if `duration` is `True`
         self._duration = duration
-        duration = self.tau if duration is True else duration
+        if duration is True:
+            duration = self.tau
+            if axes is not None and np.ndim(duration) > 0:
+                # the duration follows the operator to its axes
+                duration = common.set_axes(0, np.asarray(duration), axes)
 
         # init operator
         opscalar.diff.DiffOperator.__init__(
